@@ -559,11 +559,16 @@ def oracle_roundtrip(md, M, res: Result, objs=None):
     pair = any(has_pair(s) for s in strings_of(md, []))
     try:
         doc = md.to_yaml()
+    except Exception as e:
+        res.failures.append(Failure(f"C14:to_yaml-raises:{type(e).__name__}:{'+'.join(kinds_of(md))[:80]}",
+                                    f"to_yaml raised {type(e).__name__}: {str(e)[:200]}", replay))
+        return None
+    try:
         back = M.SnapshotMetadata.from_yaml(doc)
     except Exception as e:
         res.failures.append(Failure(f"C14:roundtrip-raises:{type(e).__name__}:{'+'.join(kinds_of(md))[:80]}",
-                                    f"to_yaml/from_yaml raised {type(e).__name__}: {str(e)[:200]}", replay))
-        return None
+                                    f"from_yaml(to_yaml(md)) raised {type(e).__name__}: {str(e)[:200]}", replay))
+        return doc
     if not strict_eq(md, back):
         if pair and strict_eq(map_strings(md, merge_pairs, M), back):
             if REPORT_ADJACENT_PAIR:
@@ -813,6 +818,8 @@ def check_docs(ctx: Ctx, res: Result, M):
         oracle_roundtrip(md, M, res)
     for md in pair_witnesses(M):
         doc = oracle_roundtrip(md, M, res)
+        if doc is None:
+            continue
         print_cases.append((md_term(md), val(doc)))
         exp = read_case(doc, M, res)
         read_cases.append((term(doc), val(exp)))
